@@ -141,6 +141,9 @@ def r2(ctx, F, rule, sfx):
         raise AnalysisIncomplete('try_extend call sites in the boundary reconstruction: %d' % len(tev))
     te = tev[0]
     loops = [L for L in ip.loops if L['body'] is cb]
+    run = [rr for rr in ip.closure_runs if te in rr['events'] and rr['adaptor'] in ('find', 'position', 'find_map')]
+    if run:
+        return r2_search_form(ctx, F, rule, sfx, ip, cb, te, run[0], loops, w)
     inner = [L for L in loops if event_block(te) in L['blocks']]
     if not inner:
         raise AnalysisIncomplete('try_extend is not called in a loop')
@@ -240,6 +243,63 @@ def r2(ctx, F, rule, sfx):
         if all(dtab.evaluate(x, val_err) for x in g):
             leaks.append('bb%d when %s' % (blk, ' & '.join(repr(x)[-60:] for x in g) or 'always'))
     ctx.check(rule, 'scan-ends-only-by-acceptance' + sfx, not leaks and nexits >= 1, leaks[:2] or '%d normal exit(s), all on the Ok arm' % nexits, 'break only after Ok', w, key_extra='scan-exit')
+
+
+def r2_search_form(ctx, F, rule, sfx, ip, cb, te, run, loops, w):
+    """The same selection scan written with a library search: `(i..n).find(|&idx| try_extend(vs[idx].dual..).is_ok())` yields the first
+    candidate from position i on (in steps of one, by the contract of Range and find) for which the predicate holds."""
+    outer = [L for L in loops if any(event_block(e) in L['blocks'] for e in ip.events if e.term is run['term'])]
+    if not outer:
+        raise AnalysisIncomplete('the candidate search is not inside the loop over positions')
+    Lo = sorted(outer, key=lambda L: len(L['blocks']))[0]
+    stream = repr(I.frozen(run['stream']))
+    m = re.match(r'^Range\{start: (.*), end: len\((.*)\)\}$', stream)
+    o_rng = [repr(I.frozen(x)).replace(' ', '') for x in Lo['init'] if x is not None and 'Range{' in repr(I.frozen(x))]
+    ptxt = m.group(1) if m else None
+    ok_pos = bool(m) and '::next(' in ptxt and ptxt.endswith('.Some.0') and any(x == 'Range{start:1,end:len(vs)}' for x in o_rng)
+    ctx.check(rule, 'scan-starts-at-the-position-being-filled' + sfx, ok_pos, 'candidates %s; positions %s' % (stream[-80:], o_rng[:1]), 'idx = i for i in 1..vertices.len()', w, key_extra='scan-start')
+    # the offered triple is the candidate's, the predicate is "accepted"
+    item = run['item']
+    it = repr(I.frozen(item))
+    a_ = [repr(x) for x in te.fargs[1:]]
+    mm = re.match(r'^(.*)\[(.+)\]\.dual\[0\]$', a_[0])
+    ok_arg = bool(mm) and mm.group(2) == it and a_ == ['%s[%s].dual[%d]' % (mm.group(1), it, k) for k in range(3)]
+    ctx.check(rule, 'scan-advances-by-one-after-a-refusal' + sfx, ok_arg and run['adaptor'] in ('find', 'position'), 'library search `%s` over the candidate range, offering %s' % (run['adaptor'], a_[0][-50:]),
+              'every candidate from the position on is offered once, in order (Range + find)', w, key_extra='scan-step')
+    res = run['result']
+    d = None
+    if isinstance(res, I.B):
+        for l in dtab.b_leaves(res).values():
+            dd = dtab.is_discr_eq(l)
+            if dd is not None and 'try_extend' in repr(dd[0]):
+                d = (dd, dtab.evaluate(res, lambda leaf, l=l: True if leaf.key() == l.key() else False))
+    # predicate true exactly when the result is Ok (discriminant 0)
+    ok_pol = d is not None and (((d[0][1] == 0) == d[0][2]) == bool(d[1]))
+    ctx.check(rule, 'refusal-is-the-Err-arm' + sfx, ok_pol, 'search predicate: %s' % repr(res)[-80:], 'the search stops at the first candidate accepted with Ok', w, key_extra='scan-polarity')
+    sw = [e for e in ip.events if e.callee and e.callee.endswith('::swap') and e.body is cb]
+    ok_sw = len(sw) == 1
+    obs_sw = '%d swap call(s)' % len(sw)
+    if ok_sw:
+        e = sw[0]
+        args = [repr(as_rf(e.fargs[1])), repr(as_rf(e.fargs[2]))]
+        found = [a for a in args if run['adaptor'] in a and ('unwrap(' in a or '.Some.0' in a)]
+        ok_sw = len(found) == 1 and ptxt in args and found[0] != ptxt
+        for x in e.guard:
+            for l in dtab.b_leaves(x).values():
+                if 'Range' in repr(l) and 'discr' in repr(l):
+                    continue
+                if not (l.op == 'cmp' and {repr(l.args[1]), repr(l.args[2])} == set(args)):
+                    ok_sw = False
+                else:
+                    op = l.args[0]
+                    lhs_is_pos = repr(l.args[1]) == ptxt
+                    if not ((op in ('<', '<=', '!=')) if lhs_is_pos else (op in ('>', '>=', '!='))):
+                        ok_sw = False
+        obs_sw = 'swap(%s)' % ', '.join(a[-40:] for a in args)
+    ctx.check(rule, 'accepted-vertex-moves-to-the-filled-position' + sfx, ok_sw, obs_sw, 'vertices.swap(i, found) (may be skipped only when found == i)', w, key_extra='scan-swap')
+    # no candidate accepted: unwrapping the empty search result panics
+    ex = [e for e in ip.events if e.body is cb and e.callee and e.callee.endswith(('Option::<T>::expect', 'Option::<T>::unwrap')) and run['adaptor'] in repr(e.fargs[0])]
+    ctx.check(rule, 'scan-ends-only-by-acceptance' + sfx, len(ex) >= 1, '%d unwrap/expect of the search result' % len(ex), 'expect(..) on the search result: no silent continuation without an accepted vertex', w, key_extra='scan-exit')
 
 
 def diverges(body, blk, _seen=None):
@@ -483,27 +543,19 @@ def r5(ctx, F, rule, sfx):
     if L is None:
         raise AnalysisIncomplete('vertex creation is not in a loop')
     a0, a1, a2 = [as_rf(x) for x in e.fargs[:3]]
-    sc_ = _scalar_phis(L)
-    # next: the item of the walk; cur: loop-carried, initialised with the first item, updated to `next`
-    t1 = repr(a1)
-    is_item = '::next(' in t1 and t1.endswith('.Some.0') and 'Take' in t1
-    cur = [(i, a, p) for i, (a, p) in sc_.items() if repr(p) == repr(a0)]
-    ok = is_item and len(cur) == 1
-    obs = 'from_dual(%s, %s, %s)' % (repr(a0)[-30:], t1[-40:], repr(a2)[-40:])
-    if ok:
-        ci, cinit, cphi = cur[0]
-        it = repr(as_rf(cinit))
-        ok = ('Take' in it and '::next(' in it) and all(repr(vals.get(ci)) == t1 for g, vals in L['back'])
-        obs += '; cur starts at %s and becomes the walk item' % it[:50]
-    ctx.check(rule, 'one-vertex-per-consecutive-cycle-pair' + sfx, ok, obs, 'cur = first item; for next in rest: from_dual(cur, next, p_idx); cur = next', where(cb, e.line), key_extra='pairs')
+    wk = c01.clip_walk(F)
+    ok = wk['cur'] is not None and wk['next'] is not None and wk['cur'].is_zero() and (wk['next'] - 1).is_zero()
+    obs = 'from_dual(W[t %s], W[t %s], %s) for the t-th vertex, W the walk from start' % ('+ ' + repr(wk['cur']) if wk['cur'] is not None else '?', '+ ' + repr(wk['next']) if wk['next'] is not None else '?', repr(a2)[-40:])
+    ctx.check(rule, 'one-vertex-per-consecutive-cycle-pair' + sfx, ok, obs, 'the t-th new vertex is from_dual(W[t], W[t+1], p_idx): one per cycle edge, in walk order', where(cb, e.line), key_extra='pairs')
     # third plane: the index the new plane was pushed at
     pu = [x for x in ip.events if x.callee and x.callee.endswith('::push') and x.body is cb and repr(x.fargs[1]) == 'newplane']
     ok3 = len(pu) == 1 and repr(a2) == 'len(%s)' % repr(pu[0].fargs[0]) and not pu[0].in_loop
     ctx.check(rule, 'third-plane-is-the-new-plane' + sfx, ok3, 'third plane %s; plane pushed onto %s' % (repr(a2), repr(pu[0].fargs[0]) if pu else '?'), 'p_idx = clipping_planes.len() before the push', where(cb, e.line), key_extra='pidx')
-    # the walk: take(len + 1) of the cycle iterator (shared with C01.R7), and the vertex is pushed once per pair after the truncate
-    tk = [x for x in ip.events if x.callee and x.callee.endswith('Iterator::take') and x.body is cb]
-    okw = len(tk) == 1 and 'SimpleCycle::iter' in repr(tk[0].fargs[0]) and repr(tk[0].fargs[1]).startswith('1 + ') and "'len'" in repr(tk[0].fargs[1])
-    ctx.check(rule, 'walk-is-the-closed-cycle' + sfx, okw, repr(tk[0].fargs[1])[:70] if tk else 'no take', 'boundary.iter().take(boundary.len + 1)', w, key_extra='walk')
+    # the walk covers the closed cycle: len pairs over the cycle left by compute_boundary
+    RO = c01.cycle_roles(F)
+    cnt = repr(wk['count']) if wk['count'] is not None else 'unbounded'
+    okw = wk['count'] is not None and cnt.startswith('mut:') and ('compute_boundary(0, \'%s\'' % RO['len']) in cnt and 'compute_boundary' in wk['cycle']
+    ctx.check(rule, 'walk-is-the-closed-cycle' + sfx, okw, '%s pairs over %s' % (cnt[:70], wk['cycle'][:40]), 'boundary.len pairs of the cycle reconstructed for this clip', w, key_extra='walk')
     vp = [x for x in ip.events if x.callee and x.callee.endswith('::push') and x.body is cb and 'from_dual' in repr(x.fargs[1])]
     tr = [x for x in ip.events if x.callee and x.callee.endswith('::truncate') and x.body is cb]
     okp = len(vp) == 1 and vp[0].in_loop and len(tr) == 1 and 'truncate' in repr(I.frozen([xx for xx in L['ext'] if 'vertices' in repr(I.frozen(xx['init']))][0]['init'])) if L.get('ext') else False
